@@ -68,6 +68,8 @@ type Contract struct {
 	Lemmas   []*Clause
 	Uses     []string // tags whose callee postconditions this function's proof relies on
 	Synth    bool     // synthesised from type invariants
+	NoTypeInv bool    // do not add the parameters' type invariants
+	tiMerged bool
 }
 
 type ContractSet struct {
@@ -80,7 +82,7 @@ type ContractSet struct {
 	TypeInvs map[string]string // type (full name) -> "<pkgpath>|<pred name>"
 }
 
-var reKeyword = regexp.MustCompile(`^(func|pred|spec|axiom|devirt|typeinv|uses|requires|ensures(\[[^\]]*\])?|assigns|loop|inline|trusted|pure|lemma)\b`)
+var reKeyword = regexp.MustCompile(`^(func|pred|spec|axiom|devirt|typeinv|notypeinv|uses|requires|ensures(\[[^\]]*\])?|assigns|loop|inline|trusted|pure|lemma)\b`)
 
 func loadContracts(pkgDirs map[string]string) *ContractSet {
 	cs := &ContractSet{ByFunc: map[string]*Contract{}, Specs: map[string]*SpecFn{}, Axioms: map[string][]*Clause{}, Devirt: map[string]string{}, TypeInvs: map[string]string{}}
@@ -271,6 +273,10 @@ func (cs *ContractSet) parseFile(pkgPath, file, src string) {
 				for _, x := range strings.Split(rest, ",") {
 					cur.Uses = append(cur.Uses, strings.TrimSpace(x))
 				}
+			}
+		case "notypeinv":
+			if cur != nil {
+				cur.NoTypeInv = true
 			}
 		case "inline":
 			if cur != nil {
